@@ -176,6 +176,27 @@ class Series(PySeries):
 
 
 class Frame(FakeFrame):
+    def __init__(self, data=None, schema=None, orient=None):
+        """dict of columns, or (like polars) a list of column lists / with orient='row' a list of row lists"""
+        if data is None:
+            data = {}
+        if isinstance(data, FakeFrame):
+            data = data._d
+        if isinstance(data, (list, tuple)):
+            if data and isinstance(data[0], dict):
+                keys = list(data[0])
+                data = {k: [r.get(k) for r in data] for k in keys}
+            else:
+                seqs = [list(x) if isinstance(x, (list, tuple)) else [x] for x in data]
+                if orient == "row":
+                    ncol = len(seqs[0]) if seqs else 0
+                    cols = [[r[j] for r in seqs] for j in range(ncol)]
+                else:
+                    cols = seqs
+                names = list(schema) if schema else ["column_%d" % j for j in range(len(cols))]
+                data = dict(zip(names, cols))
+        FakeFrame.__init__(self, data)
+
     def __getitem__(self, key):
         if isinstance(key, str):
             if key not in self._d:
